@@ -27,6 +27,8 @@ def call_method(V, recv, name, args, kwargs, st, node):
                     'method .%s on Optional value that may be None' % name, node)
         recv = strip_opt(recv)
     if isinstance(recv, SV) and recv.t == STR:
+        # None passed to a str method is a TypeError in Python
+        args = [V.nn(st, a, node, 'argument of str.%s' % name) for a in args]
         return str_method(V, recv, name, args, kwargs, st, node)
     if isinstance(recv, SV) and recv.t == PATH:
         from . import paths
